@@ -52,7 +52,10 @@ class C03(RunProp):
     def cases(self, rng: random.Random, tier: str) -> Iterable[dict]:
         while True:
             r = rng.random()
-            if r < 0.75:
+            if r < 0.12:
+                c = gen.gen_nested_gate_loop(rng)
+                c["kind"] = "loop"
+            elif r < 0.75:
                 c = gen.gen_gated_dag(rng, max_nodes=8 if tier == "quick" else 12, p_closed=rng.choice([0.2, 0.6, 1.0]))
                 c["kind"] = "dag"
             else:
